@@ -308,6 +308,58 @@ Definition c18_ok (c : scenario * obs) : bool :=
        (forallb (fun op => negb (needs_ack op) || mem (uop_uid op) (o_acked o)) (scenario_ops sc)
         && (o_retryq o =? 0)))).
 
+(* ---------- re-subscriptions only name filters whose Subscribe was transmitted before ---------- *)
+(* The harness gives every Subscribe request u a marker filter "#u" as its first filter. A uid-0 SUBSCRIBE
+   (re-subscription) naming "#u" before request u's own SUBSCRIBE was first written would transmit part
+   of a request ahead of older, never transmitted requests. *)
+Fixpoint digits_to_nat (acc : nat) (l : str) : option nat :=
+  match l with
+  | [] => Some acc
+  | d :: r => if (N.leb 48 d && N.leb d 57)%bool
+              then digits_to_nat (10 * acc + N.to_nat (d - 48)%N) r else None
+  end.
+Definition marker_uid (t : str) : option nat :=
+  match t with
+  | 35%N :: (_ :: _) as ds => digits_to_nat 0 ds
+  | _ => None
+  end.
+
+Fixpoint resub_after_own_tx (seen : list nat) (w : list (nat * pkt * wres)) : bool :=
+  match w with
+  | [] => true
+  | (_, PSubscribe 0 ss, _) :: r =>
+      forallb (fun x => match marker_uid (fst x) with Some u => mem u seen | None => true end) ss
+      && resub_after_own_tx seen r
+  | (_, PSubscribe u _, _) :: r => resub_after_own_tx (u :: seen) r
+  | _ :: r => resub_after_own_tx seen r
+  end.
+
+Definition c03_ok' (c : scenario * obs) : bool :=
+  c03_ok c && (negb (uids_wf (fst c)) || resub_after_own_tx [] (o_wire (snd c))).
+Definition c08_ok' (c : scenario * obs) : bool :=
+  c08_ok c && (negb (uids_wf (fst c)) || resub_after_own_tx [] (o_wire (snd c))).
+
+(* ---------- an abandoned re-subscription is kept for retransmission ---------- *)
+(* every re-subscription SUBSCRIBE that was not acknowledged is written again later (as a retransmission
+   or by a later Resubscribe), once the scenario has ended idle on a stable connection *)
+Fixpoint resubs_kept (w : list (nat * pkt * wres)) : bool :=
+  match w with
+  | [] => true
+  | (_, PSubscribe 0 ss, r) :: rest =>
+      (match r with
+       | WAck => true
+       | _ => existsb (fun e => match snd (fst e) with
+                                | PSubscribe 0 ss' => list_eqb sub_eqb ss ss'
+                                | _ => false end) rest
+       end) && resubs_kept rest
+  | _ :: rest => resubs_kept rest
+  end.
+
+Definition c18_ok' (c : scenario * obs) : bool :=
+  c18_ok c &&
+  (negb (c_timeout (sc_cfg (fst c)) && uids_wf (fst c) && ends_stable (fst c)) || o_stuck (snd c) || o_hung (snd c)
+   || resubs_kept (o_wire (snd c))).
+
 (* ---------- result lists ---------- *)
 Definition failing (p : scenario * obs -> bool) (cs : list (scenario * obs)) : list nat :=
   indices_where (fun c => negb (p c)) cs.
